@@ -31,6 +31,10 @@ CLAIMED['C04'] = dict(
    text='Machine-checked theorems over ALL marker lists (custom markers included): the has_* predicates regenerated from _has_patcher.py, the coverage decision of CheckMarkers regenerated from linter/_rules.py and the table + runtime bullets parsed from docs/basic/side-effects.md on every run all equal one reference implication table (io covers every I/O sub-marker; the four aliases); patching replaces stdout / stderr / socket iff the marker list lacks io/print/stdout, io/stderr, io/network/socket and installs the documented or configured error; an allowed effect reaches the real stream unchanged. Tied to the code by regeneration, by correspondence on every subset of the 16 known markers (exhaustive 2^16 in the thorough tier) for 9 runtime predicates and 12 linter decisions, by has(M) x effect x kind x customisation scenarios, and by the real linter on generated sources.',
    design_ref='DESIGN.md 4.4', note=GENERIC_NOTE,
    technique='Coq proof over predicates/tables regenerated from source and docs + exhaustive correspondence')
+CLAIMED['C10'] = dict(
+   text='Machine-checked closed form of Validator._exception and Validator.__init__ (regenerated from _validators.py) over the entire configuration space: the raised object has the configured class; message precedence (validator-returned text, else the configured message / exception-instance text); ContractError subclasses carry exactly the given params, the violated function and the validator; other classes are built from (message, errors); per-kind defaults read from _decorators.py / _exceptions.py are ContractError subclasses and ContractError is an AssertionError. Tied to the code by regeneration and by a complete configuration matrix (kind x message x exception form x validator outcome x signature shape) run on model and implementation, with a monitor that also probes str() and pickling on the real objects.',
+   design_ref='DESIGN.md 4.10', note=GENERIC_NOTE + ' Partial: str() rendering and pickling are observed on the implementation only (source extraction, repr and pickle are outside the model).',
+   technique='Coq proof (closed form by exhaustive case analysis) over code regenerated from source + exhaustive matrix correspondence')
 UNCLAIMED_REASON = 'not claimed yet: the Coq model and check for this property are still under construction in this round (no technique switch intended)'
 checks, na = [], []
 for p in props:
